@@ -8,10 +8,11 @@ TRUSTED as a statement of Python semantics; validated against `str.isidentifier`
 namespace Dcg.Py.Chars
 open Dcg.Gen.Unicode
 
-/-- membership in a sorted list of disjoint inclusive ranges (linear, early exit) -/
+/-- membership in a sorted list of disjoint inclusive ranges (linear, early exit; written with the
+Boolean comparisons the kernel evaluates natively) -/
 def inRanges : List (Nat × Nat) → Nat → Bool
   | [], _ => false
-  | (lo, hi) :: rest, n => if n < lo then false else if n ≤ hi then true else inRanges rest n
+  | (lo, hi) :: rest, n => !(Nat.blt n lo) && (Nat.ble n hi || inRanges rest n)
 
 /-- `c.isidentifier()` : XID_Start or `_` -/
 def isIdStart (c : Char) : Bool := inRanges xidStart c.toNat
